@@ -11,6 +11,11 @@ NOTES = ("Contract-based deductive verification. Each check extracts the real fu
          "otherwise labelled bounded and not counted) discharge every obligation. Exit 2 = undecided (lost anchor / unsupported construct / solver limit), never an alarm.")
 
 CLAIMS = {
+    "C16": dict(
+        technique="Verus contracts on four anchored fragments of the real code (uni payload dispatch, serve_sync prologue, sync-candidate filter closure, broadcast-target filter closure), extracted each run",
+        text="Proof, for all cluster ids / members / payloads, of the four decision sites: a broadcast change is queued iff its payload's cluster id equals ours; serve_sync ends with exactly one Rejection(DifferentCluster) message and no data for a foreign cluster id; sync candidates and broadcast targets are other members of the same cluster. End-to-end 'never applies' beyond these sites is not decided.",
+        note="Assumed: `.instrument(..).await` on the one awaited write is replaced by a ghost log; speedy default_on_eof; members map contents. The uni handler's once-per-connection capture of the cluster id is noted, not covered.",
+    ),
     "C17": dict(
         technique="Verus contract on the extracted require_authz decision fragment and the query endpoint's read-only guard; structural obligations (extractor-discharged) on router/middleware order and guard dominance",
         text="Proof that the authorisation decision passes iff no token is configured or the header carries exactly the configured token, and rejects with 401 otherwise; structural obligations on the real builder chain that every .route() precedes the single authz layer and that the served app is that router; the non-readonly guard returns a client error before any statement execution and dominates every query call.",
@@ -60,5 +65,4 @@ NOT_APPLICABLE = {
     "C09": "check not built yet in this round (planned: DESIGN.md §5/C09)",
     "C10": "check not built yet in this round (planned: DESIGN.md §5/C10)",
     "C14": "check not built yet in this round (planned: DESIGN.md §5/C14)",
-    "C16": "check not built yet in this round (planned: DESIGN.md §5/C16)",
 }
